@@ -179,6 +179,19 @@ def install_externals(reg):
         return [(p, z3.If(v >= 0, v, -v))]
     E["builtins.abs"] = b_abs
 
+    def b_minmax(is_min):
+        def h(ex, p, pos, kw, node):
+            if kw or len(pos) < 2 or not all(is_num(v) for v in pos):
+                raise OutOfSubset("min/max of non-numeric or a single iterable")
+            r = pos[0]
+            for v in pos[1:]:
+                a, b = coerce2(r, v)
+                r = z3.If(b < a, b, a) if is_min else z3.If(b > a, b, a)
+            return [(p, r)]
+        return h
+    E["builtins.min"] = b_minmax(True)
+    E["builtins.max"] = b_minmax(False)
+
     def b_list(ex, p, pos, kw, node):
         v = pos[0]
         if isinstance(v, PyList):
